@@ -529,7 +529,18 @@ pub fn c17(a: &Args) {
         let what = format!("{nreq} x enumerate([], {amount}) handed to {nclones} clones in turn ({count} models)");
         out.eval(Some(format!("{}|{}", f.text(), what)));
         out.count("multi_cycle_runs", 1);
+        // in every other run a further clone is edited in the middle of the cycles (a model-changing request handled by
+        // another worker): the edited clone goes its own way, the paging of its siblings is not disturbed
+        let edit_at = if r % 2 == 1 { Some(1 + rng.below(nreq - 1)) } else { None };
         for i in 0..nreq {
+            if Some(i) == edit_at {
+                let mut extra = clones[rng.below(nclones)].clone();
+                let v = 1 + rng.below(f.n as usize) as i32;
+                let lit = if rng.chance(0.5) { v } else { -v };
+                let _ = crate::edit_props::apply(&mut extra, vec![(vec![lit], ddnnife::parser::intermediate_representation::ClauseApplication::Add)]);
+                let _ = guarded(|| extra.enumerate(&mut vec![], amount));
+                out.count("sibling_edited_mid_cycle", 1);
+            }
             let c = &mut clones[i % nclones];
             let got = guarded(|| c.enumerate(&mut vec![], amount)).unwrap_or(None);
             let want = single.enumerate(&mut vec![], amount);
